@@ -50,7 +50,13 @@ pub struct Item {
     pub detached: bool,
 }
 
-pub const ITEMS: [Item; 12] = [
+pub const ITEMS: [Item; 16] = [
+    // a test case that redefines what scrut's own code around the expression calls, or sets options that end / disable a shell:
+    // the verdicts of the following test cases are still about their own commands
+    Item { name: "defines-functions-named-exit-unset-trap", md: "exit() { builtin exit 0; }", cram: "true", expectations: &[], code: None, kind: "success", has_exit_code: true, detached: false },
+    Item { name: "set-t", md: "set -t", cram: "true", expectations: &[], code: None, kind: "success", has_exit_code: true, detached: false },
+    Item { name: "set-n", md: "set -n", cram: "true", expectations: &[], code: None, kind: "success", has_exit_code: true, detached: false },
+    Item { name: "false", md: "false", cram: "false", expectations: &[], code: None, kind: "invalid_exit_code", has_exit_code: true, detached: false },
     // a detached helper before other tests: results must stay attached to their own test cases
     Item { name: "detached-helper", md: "sleep 0.05", cram: "true", expectations: &[], code: None, kind: "success", has_exit_code: true, detached: true },
     // a shell killed by signal N is not a shell that exited with 128+N: even when the document expects that code
@@ -132,6 +138,13 @@ impl Engine for VcVerdict {
         for w in words_upto(ITEMS.len(), depth) {
             if w.is_empty() {
                 continue;
+            }
+            // a user function named `exit` legitimately changes what a later `exit N` of the user does (functions carry over):
+            // only commands that do not call `exit` are judged after it
+            if let Some(p) = w.iter().position(|i| ITEMS[*i].name.starts_with("defines-functions")) {
+                if w[p + 1..].iter().any(|i| ITEMS[*i].md.contains("exit")) {
+                    continue;
+                }
             }
             for cram in [false, true] {
                 v.push(VerdictCase::Cli { items: w.clone(), cram });
